@@ -47,6 +47,28 @@ M = [
      "currentState->recursionDepth_ < maxRecursionDepth_",
      "currentState->recursionDepth_ <= maxRecursionDepth_",
      "trampoline depth test off by one"),
+    ("m12", "C07", "source/timed_single_thread_context.cpp",
+     "           queuedTask->next_->dueTime_ <= task->dueTime_) {",
+     "           queuedTask->next_->dueTime_ < task->dueTime_) {",
+     "timed context: equal due times no longer keep submission order"),
+    ("m13", "C07", "source/timed_single_thread_context.cpp",
+     "      if (nextDueTime <= now) {",
+     "      if (nextDueTime <= now + std::chrono::milliseconds(1)) {",
+     "timed context fires up to 1 ms early"),
+    ("m14", "C07", "source/timed_single_thread_context.cpp",
+     "    head_ = task;\n\n    // New minimum due-time has changed, wake the thread.\n    cv_.notify_one();",
+     "    head_ = task;",
+     "timed context: no wake-up when a new earliest timer is queued"),
+    ("m21", "C15", "source/async_mutex_v2.cpp",
+     "    if (queue_.empty()) {\n      return;\n    }",
+     "    return;",
+     "v2 mutex: no re-check of the queue after releasing the lock (Dekker half removed)"),
+    # m22 (remove op->mutex_.unlock() in resume_'s else-branch) is an equivalent mutant: the branch is unreachable
+    # (a waiter completed by stop() was either never enqueued or removed by try_remove, so it is never popped).
+    ("m23", "C15", "source/async_mutex_v1.cpp",
+     "  waiter_base* item = pendingQueue_.pop_front();\n  item->resume_(item);",
+     "  waiter_base* item = pendingQueue_.pop_front();\n  waiter_base* second = pendingQueue_.empty() ? nullptr : pendingQueue_.pop_front();\n  item->resume_(item);\n  if (second) second->resume_(second);",
+     "v1 mutex: unlock() resumes two waiters"),
 ]
 
 
